@@ -63,7 +63,7 @@ typedef struct {
   int prog;			/* 0 addw 1 no rule on target (float on mmx) 2 register exhaustion 3 fatal */
 } Cfg;
 static const char *orc_codes[] = { NULL, "emulate", "backup", "debug", "backup,emulate" };
-static const char *prognames[] = { "addw", "norule", "regs", "fatal", "gpregs", "resample-read-again", "never-compiled" };
+static const char *prognames[] = { "addw", "norule", "regs", "fatal", "gpregs", "resample-read-again", "never-compiled", "application-opcode-without-rule" };
 static const char *scratch;
 
 static int backup_calls;
@@ -74,11 +74,23 @@ static void backup_fn (OrcExecutor * ex)
   for (i = 0; i < ex->n; i++) ((unsigned char *) ex->arrays[ORC_VAR_D1])[i] = 0xB7;
 }
 
+static void xf_emu (OrcOpcodeExecutor *ex, int offset, int n)
+{
+  int i;
+  const orc_uint16 *a = ex->src_ptrs[0], *b = ex->src_ptrs[1];
+  orc_uint16 *d = ex->dest_ptrs[0];
+  (void) offset;
+  for (i = 0; i < n; i++) d[i] = (orc_uint16) (a[i] + b[i]);
+}
+static OrcStaticOpcode xf_set[] = { { "xfaddw", 0, { 2 }, { 2, 2 }, xf_emu }, { "" } };
+static int xf_registered;
+
 static OrcProgram *mk (int kind)
 {
   OrcProgram *p;
   int i;
   char nm[8], cn[8];
+  if (kind == 7 && !xf_registered) { orc_opcode_register_static (xf_set, "xfault"); xf_registered = 1; }
   switch (kind) {
     case 0:
       p = orc_program_new_dss (2, 2, 2);
@@ -135,6 +147,12 @@ static OrcProgram *mk (int kind)
       p = orc_program_new_dss (2, 2, 2);
       orc_program_append_str (p, "addw", "d1", "s1", "s2");
       break;
+    case 7:
+      /* an opcode of an application-registered set for which no back end has a rule: emulation through the application's
+       * function is the only implementation */
+      p = orc_program_new_dss (2, 2, 2);
+      orc_program_append_str (p, "xfaddw", "d1", "s1", "s2");
+      break;
     default:
       p = orc_program_new_dss (2, 2, 2);
       orc_program_append_str (p, "addl", "d1", "s1", "s2");	/* size mismatch: fatal */
@@ -148,7 +166,7 @@ static void expected (int kind, const unsigned char *s1, const unsigned char *s2
 {
   int i, k;
   if (kind == 5) for (i = 0; i < n; i++) { unsigned a, r; memcpy (&a, s1 + 4 * i, 4); r = a + a; memcpy (d + 4 * i, &r, 4); }
-  else if (kind == 0 || kind == 6) for (i = 0; i < n; i++) { unsigned short a, b, r; memcpy (&a, s1 + 2 * i, 2); memcpy (&b, s2 + 2 * i, 2); r = (unsigned short) (a + b); memcpy (d + 2 * i, &r, 2); }
+  else if (kind == 0 || kind == 6 || kind == 7) for (i = 0; i < n; i++) { unsigned short a, b, r; memcpy (&a, s1 + 2 * i, 2); memcpy (&b, s2 + 2 * i, 2); r = (unsigned short) (a + b); memcpy (d + 2 * i, &r, 2); }
   else if (kind == 1) for (i = 0; i < n; i++) { float a, b, r; memcpy (&a, s1 + 4 * i, 4); memcpy (&b, s2 + 4 * i, 4); r = a + b; memcpy (d + 4 * i, &r, 4); }
   else for (i = 0; i < n; i++) {
     unsigned short a, b, t[14], r;
@@ -391,7 +409,7 @@ int main (int argc, char **argv)
     for (i = 0; i < 3; i++) { snprintf (p, sizeof (p), "%s/d%d", scratch, i); mkdir (p, 0700); }
   }
   for (ei = 0; ei < ne; ei++) for (c.orc_code = 0; c.orc_code < 5; c.orc_code++) for (c.backup = 0; c.backup < 2; c.backup++)
-    for (c.codeonly = 0; c.codeonly < 3; c.codeonly++) for (c.prog = 0; c.prog < 7; c.prog++) {
+    for (c.codeonly = 0; c.codeonly < 3; c.codeonly++) for (c.prog = 0; c.prog < 8; c.prog++) {
       if (c.prog == 6 && (!c.backup || c.codeonly == 1)) continue;	/* an uncompiled program runs through its backup function only */
       int fail[8], mask, on;
       c.envmask = thorough ? envt[ei] : envq[ei];
